@@ -334,15 +334,16 @@ func (il *inliner) firstCall(e ast.Expr) (call *ast.CallExpr, stop bool) {
 		}
 		if id, ok := x.Fun.(*ast.Ident); ok {
 			if _, isB := info.Uses[id].(*types.Builtin); isB {
-				if !pureBuiltins[id.Name] {
-					return nil, true
-				}
+				// the operands of a builtin are evaluated before it takes effect
 				for _, a := range x.Args {
+					if tv, ok := info.Types[a]; ok && tv.IsType() {
+						continue // make([]T, n), new(T)
+					}
 					if c, stop := il.firstCall(a); c != nil || stop {
 						return c, stop
 					}
 				}
-				return nil, false
+				return nil, !pureBuiltins[id.Name]
 			}
 		}
 		if _, _, isCand := il.calleeOf(x); isCand {
